@@ -1,5 +1,9 @@
 pub mod c01;
+pub mod c02;
+pub mod c03;
+pub mod c05;
 pub mod c15;
+pub mod families;
 
 use crate::drivers::Case;
 use crate::engine::Violation;
@@ -8,6 +12,10 @@ use serde_json::Value;
 pub fn run_check(id: &str, tier: &str, seed: u64) -> Option<i32> {
     Some(match id {
         "C01" => c01::run(tier, seed),
+        "C02" => c02::run(tier, seed),
+        "C03" => c03::run_c03(tier, seed),
+        "C04" => c03::run_c04(tier, seed),
+        "C05" => c05::run(tier, seed),
         "C15" => c15::run(tier, seed),
         _ => return None,
     })
@@ -21,6 +29,10 @@ fn case_of(replay: &Value) -> Result<Case, String> {
 pub fn replay(replay: &Value) -> Result<Vec<Violation>, String> {
     Ok(match replay["check"].as_str().unwrap_or("") {
         "C01" => c01::replay(&case_of(replay)?),
+        "C02" => c02::replay(&case_of(replay)?),
+        "C03" => c03::replay_c03(&case_of(replay)?),
+        "C04" => c03::replay_c04(&case_of(replay)?),
+        "C05" => c05::replay(replay)?,
         "C15" => c15::replay(replay["input"].as_str().ok_or("input")?),
         other => return Err(format!("unknown replay kind `{other}`")),
     })
